@@ -11,6 +11,7 @@
 #endif
 
 #include "iora/core/errno_utils.hpp"
+#include "iora/core/verif_hooks.hpp"
 #include "iora/network/circuit_breaker.hpp"
 #include "iora/network/connection_health.hpp"
 #include "iora/network/detail/engine_base.hpp"
@@ -861,6 +862,7 @@ private:
     // synchronous addListener caller's fut.get() returns instead of blocking
     // forever (DD-5/DD-13). _qmx stays a leaf: swap under the lock and fulfill
     // promises after releasing (set_value runs no user code).
+    IORA_VERIF_YIELD("udp.shutdown.before_queue_close"); // sessions are closed, the queue still accepts
     std::deque<Cmd> residual;
     {
       std::lock_guard<std::mutex> g(_qmx);
